@@ -220,18 +220,35 @@ reg("C08",
 
 # ------------------------------------------------------------------------------------------------ C09
 reg("C09",
-    H("c09", "c09_server_hello_draft18", cfg="serialize", timeout=900, mem=12, bounds="concrete shape, symbolic field contents (see harness)", funcs=["server_hello_draft18"]),
-    H("c09", "c09_client_key_exchange_finished_hello_request", cfg="serialize", timeout=900, mem=12, bounds="concrete shape, symbolic field contents (see harness)", funcs=["client_key_exchange_finished_hello_request"]),
     H("c09", "c09_change_cipher_spec_message", cfg="serialize", timeout=900, mem=12, bounds="concrete shape, symbolic field contents (see harness)", funcs=["change_cipher_spec_message"]),
-    H("c09", "c09_plaintext_record_of_messages", cfg="serialize", timeout=900, mem=12, bounds="concrete shape, symbolic field contents (see harness)", funcs=["plaintext_record_of_messages"]),
-    H("c09", "c09_plaintext_record_change_cipher_spec", cfg="serialize", timeout=900, mem=12, bounds="concrete shape, symbolic field contents (see harness)", funcs=["plaintext_record_change_cipher_spec"]),
-    H("c09", "c09_extensions_round_trip", cfg="serialize", timeout=900, mem=12, bounds="concrete shape, symbolic field contents (see harness)", funcs=["extensions_round_trip"]),
+    H("c09", "c09_plaintext_record_empty_stale_len", cfg="serialize", timeout=600, bounds="empty record, record type / version / stale hdr.len symbolic", funcs=["gen_tls_plaintext"]),
+    H("c09", "c09_reserialization_normal_form", cfg="serialize", timeout=600, bounds="ServerHello, ext None vs Some(empty), all scalar fields symbolic", funcs=["gen_tls_serverhello"]),
+    H("c09", "c09_plaintext_record_of_messages", cfg="serialize", tier="thorough", timeout=3000, mem=24, bounds="concrete shape, symbolic field contents (see harness)", funcs=["plaintext_record_of_messages"]),
+    H("c09", "c09_plaintext_record_change_cipher_spec", cfg="serialize", tier="thorough", timeout=3000, mem=24, bounds="concrete shape, symbolic field contents (see harness)", funcs=["plaintext_record_change_cipher_spec"]),
     H("c09", "c09_extension_list_round_trip", cfg="serialize", timeout=900, mem=12, bounds="concrete shape, symbolic field contents (see harness)", funcs=["extension_list_round_trip"]),
-    H("c09", "c09_unsupported_values_not_yet_implemented", cfg="serialize", timeout=900, mem=12, bounds="concrete shape, symbolic field contents (see harness)", funcs=["unsupported_values_not_yet_implemented"]),
     H("c09", "c09_server_hello_nosid_noext", cfg="serialize", timeout=900, mem=12, bounds="concrete shape, symbolic field contents (see harness)", funcs=["server_hello_nosid_noext"]),
     H("c09", "c09_server_hello_sid2_ext2", cfg="serialize", timeout=900, mem=12, bounds="concrete shape, symbolic field contents (see harness)", funcs=["server_hello_sid2_ext2"]),
     H("c09", "c09_client_hello_min", cfg="serialize", timeout=900, mem=12, bounds="concrete shape, symbolic field contents (see harness)", funcs=["client_hello_min"]),
-    H("c09", "c09_client_hello_sid1_c2_m1_ext2", cfg="serialize", timeout=900, mem=12, bounds="concrete shape, symbolic field contents (see harness)", funcs=["client_hello_sid1_c2_m1_ext2"]),
+    H("c09", "c09_client_hello_c1", cfg="serialize", timeout=900, mem=16, bounds="ClientHello: no session id, 1 cipher, no compression, no extension block; contents symbolic", funcs=["gen_tls_clienthello"]),
+    H("c09", "c09_client_hello_sid1_c2_m1_ext2", cfg="serialize", tier="thorough", timeout=3000, mem=24, bounds="concrete shape, symbolic field contents (see harness)", funcs=["client_hello_sid1_c2_m1_ext2"]),
+    H("c09", "c09_server_hello_draft18_noext", cfg="serialize", timeout=900, mem=12, bounds="concrete shape, symbolic field contents (see harness)", funcs=["server_hello_draft18_noext"]),
+    H("c09", "c09_server_hello_draft18_ext2", cfg="serialize", timeout=900, mem=12, bounds="concrete shape, symbolic field contents (see harness)", funcs=["server_hello_draft18_ext2"]),
+    H("c09", "c09_cke_unknown", cfg="serialize", timeout=900, mem=12, bounds="concrete shape, symbolic field contents (see harness)", funcs=["cke_unknown"]),
+    H("c09", "c09_cke_dh", cfg="serialize", timeout=900, mem=12, bounds="concrete shape, symbolic field contents (see harness)", funcs=["cke_dh"]),
+    H("c09", "c09_cke_ecdh", cfg="serialize", timeout=900, mem=12, bounds="concrete shape, symbolic field contents (see harness)", funcs=["cke_ecdh"]),
+    H("c09", "c09_finished", cfg="serialize", timeout=900, mem=12, bounds="concrete shape, symbolic field contents (see harness)", funcs=["finished"]),
+    H("c09", "c09_hello_request", cfg="serialize", timeout=900, mem=12, bounds="concrete shape, symbolic field contents (see harness)", funcs=["hello_request"]),
+    H("c09", "c09_ext_sni", cfg="serialize", timeout=900, mem=12, bounds="concrete shape, symbolic field contents (see harness)", funcs=["ext_sni"]),
+    H("c09", "c09_ext_max_fragment_length", cfg="serialize", timeout=900, mem=12, bounds="concrete shape, symbolic field contents (see harness)", funcs=["ext_max_fragment_length"]),
+    H("c09", "c09_ext_supported_groups", cfg="serialize", timeout=900, mem=12, bounds="concrete shape, symbolic field contents (see harness)", funcs=["ext_supported_groups"]),
+    H("c09", "c09_unsupported_0", cfg="serialize", timeout=900, mem=12, bounds="concrete shape, symbolic field contents (see harness)", funcs=["unsupported_0"]),
+    H("c09", "c09_unsupported_1", cfg="serialize", timeout=900, mem=12, bounds="concrete shape, symbolic field contents (see harness)", funcs=["unsupported_1"]),
+    H("c09", "c09_unsupported_2", cfg="serialize", timeout=900, mem=12, bounds="concrete shape, symbolic field contents (see harness)", funcs=["unsupported_2"]),
+    H("c09", "c09_unsupported_3", cfg="serialize", timeout=900, mem=12, bounds="concrete shape, symbolic field contents (see harness)", funcs=["unsupported_3"]),
+    H("c09", "c09_unsupported_4", cfg="serialize", timeout=900, mem=12, bounds="concrete shape, symbolic field contents (see harness)", funcs=["unsupported_4"]),
+    H("c09", "c09_unsupported_5", cfg="serialize", timeout=900, mem=12, bounds="concrete shape, symbolic field contents (see harness)", funcs=["unsupported_5"]),
+    H("c09", "c09_unsupported_6", cfg="serialize", timeout=900, mem=12, bounds="concrete shape, symbolic field contents (see harness)", funcs=["unsupported_6"]),
+    H("c09", "c09_unsupported_7", cfg="serialize", timeout=900, mem=12, bounds="concrete shape, symbolic field contents (see harness)", funcs=["unsupported_7"]),
     )
 
 # ------------------------------------------------------------------------------------------------ C10
@@ -419,6 +436,18 @@ reg("C01",
                    "c13_content_and_signature_dh"], c01=True),
     *_pick("C14", ["c14_sct_single", "c14_sct_list_wiring", "c14_sct_list_one_shape"], c01=True),
     *_pick("C16", ["c16_lemma_many1_complete", "c16_tls_parser_is_parse_tls_plaintext"], c01=True),
+    )
+
+# ------------------------------------------------------------------------------------------------ C18
+_C18_SETS = (("C02", ["c02_raw_small", "c02_plaintext_wiring"]),
+             ("C03", ["c03_two_heartbeat", "c03_two_appdata", "c03_two_unknown_ff"]),
+             ("C05", ["c05_dispatch_generic", "c05_content_sni_8", "c05_list_generic"]),
+             ("C13", ["c13_dh_params", "c13_ec_parameters", "c13_digitally_signed"]))
+reg("C18",
+    *[h for cfg in ("default", "nostd", "serialize") for prop, names in _C18_SETS for h in _pick(prop, names, cfg=cfg)],
+    *[H("c18", "c18_send_sync_and_registry_witness", cfg=cfg, timeout=600,
+        bounds="compile-time Send + Sync instantiations for every public value type; one registry lookup", funcs=["(trait solver)", "TlsCipherSuite::from_id"])
+      for cfg in ("default", "nostd", "serialize")],
     )
 
 
